@@ -712,6 +712,11 @@ def c05(ctx: Ctx) -> None:
             if isinstance(targ, ast.Constant) and isinstance(targ.value, (int, float)) and not isinstance(targ.value, bool):
                 T = targ.value
                 okT = 0 < T <= 60 and any(x in list(ast.walk(c)) for x in waits_on_event)
+                # the timer must run on the waiter's own loop: a wait_for shipped through the bridge
+                # to the computing loop dies with that loop
+                inside_bridge = any(c in list(ast.walk(b_)) and c is not b_ for b_ in bridges)
+                if foreign and inside_bridge:
+                    okT = False
         ctx.check('C05-R5', f'bounded wait on path ({"foreign" if foreign else "same"} loop), T={T}', _loc(g, w), okT,
                   detail_ok='wait_for with a literal timeout in (0, 60]',
                   detail_bad='the wait for another computation is not bounded by the 60 s safety timeout',
